@@ -215,6 +215,51 @@ pub fn run(r: &mut Report, ctx: &Ctx) {
                 },
             );
             }
+            // buckets just below / at / above each quartile, for every quartile value of the boundary alphabet
+            if ctx.want("agg-backends-thresholds") {
+                let alpha = qratio_alphabet();
+                r.section(
+                    "agg-backends-thresholds",
+                    "every aggregation backend with quartiles taken from the boundary alphabet (every power of two and its neighbours, the Q-ratio boundaries) in 4 layouts ((q,q,q), (q-1,q,q+1), (q,q+1,q+2), (q/2,q,2q)) and buckets {q-1, q, q+1, q+2, 0, u32::MAX, q/2, 2q, 2^31} rotated through all lanes: a kernel that narrows, saturates or compares signed goes wrong exactly when a quartile sits on such a boundary and a bucket lies just beyond it; non-trivial = all",
+                    &format!("{} quartile values x 4 layouts x 9 rotations x 3 bucket counts", alpha.len()),
+                    true,
+                    |s| {
+                        let alpha = &alpha;
+                        let n = alpha.len() as u64;
+                        let bes: Vec<Vec<&'static str>> = [48usize, 128, 256].iter().map(|&nb| agg_backends(nb)).collect();
+                        let bes = &bes;
+                        s.acc = par_for(n * 4 * 9 * 3, 64, |idx, acc| {
+                            let (nb, bi) = [(48usize, 0usize), (128, 1), (256, 2)][(idx % 3) as usize];
+                            let rot = ((idx / 3) % 9) as usize;
+                            let layout = (idx / 27) % 4;
+                            let q = alpha[(idx / 108) as usize];
+                            let (q1, q2, q3) = match layout {
+                                0 => (q, q, q),
+                                1 => (q.saturating_sub(1), q, q.saturating_add(1)),
+                                2 => (q, q.saturating_add(1), q.saturating_add(2)),
+                                _ => (q / 2, q, q.saturating_mul(2)),
+                            };
+                            let vals = [q.saturating_sub(1), q, q.saturating_add(1), q.saturating_add(2), 0, u32::MAX, q / 2, q.saturating_mul(2), 1u32 << 31];
+                            let mut b = [0u32; 256];
+                            for i in 0..nb {
+                                b[i] = vals[(i + rot) % vals.len()];
+                            }
+                            acc.evals += bes[bi].len() as u64;
+                            acc.transitions += bes[bi].len() as u64;
+                            acc.nontrivial += 1;
+                            match judge_agg(nb, &bes[bi], &b, q1, q2, q3) {
+                                Ok(fp) => {
+                                    acc.outcomes.insert(fp);
+                                    if idx % 4001 == 0 {
+                                        acc.sample(idx, || json!({"buckets": nb, "q": [q1, q2, q3], "rotation": rot}));
+                                    }
+                                }
+                                Err(e) => acc.fail(idx, "agg-backends-thresholds", e, json!({"kind": "agg", "key": "agg-backend", "nb": nb, "buckets": b[..nb].to_vec(), "q": [q1, q2, q3]})),
+                            }
+                        });
+                    },
+                );
+            }
             // Q-ratio alphabet quartiles through every backend (ties the aggregation to C01f's states)
             let alpha = qratio_alphabet();
             if ctx.want("agg-backends-qalpha") {
